@@ -299,12 +299,13 @@ func (f *DoubleFile) Seek(off int64, whence int) (int64, error) {
 	return p, err
 }
 
-func (f *DoubleFile) limit(p []byte, off int64) ([]byte, error) {
+func (f *DoubleFile) limit(p []byte, off int64, positional bool) ([]byte, error) {
 	f.d.mu.Lock()
 	bad, hasBad := f.d.BadFrom[f.name]
 	mr := f.d.MaxRead
 	f.d.mu.Unlock()
-	if mr > 0 && len(p) > mr {
+	// short counts are legal for Read only: os.File.ReadAt retries until the buffer is full or an error occurs
+	if mr > 0 && len(p) > mr && !positional {
 		p = p[:mr]
 	}
 	if hasBad {
@@ -319,7 +320,7 @@ func (f *DoubleFile) limit(p []byte, off int64) ([]byte, error) {
 }
 
 func (f *DoubleFile) Read(p []byte) (int, error) {
-	q, err := f.limit(p, f.pos)
+	q, err := f.limit(p, f.pos, false)
 	if err != nil {
 		return 0, err
 	}
@@ -332,7 +333,7 @@ func (f *DoubleFile) ReadAt(p []byte, off int64) (int, error) {
 	if f.d.control("readat", f.name) {
 		return 0, errInjected
 	}
-	q, err := f.limit(p, off)
+	q, err := f.limit(p, off, true)
 	if err != nil {
 		return 0, err
 	}
